@@ -35,4 +35,18 @@ CHECKS = {
           "TLC-enumerated pairs of C01 are replayed through 7 prepared forms each."),
     note=_TB + " Hook H4 exposes the cached graph (nodes, edges, labels, edge intersections) as a fingerprint.",
     technique="TLA+ session machine; chained trace validation of recorded histories + spec->impl replay", design_ref="DESIGN.md 5 C17"),
+ "C05": dict(
+    text=("TLC enumerates all simple lattice polygons (state space = simple paths closed in canonical form, 0-2 holes) with exact "
+          "integer shoelace areas; replay demands exact equality for signed/unsigned area in every winding combination, Rect / "
+          "Triangle / MultiPolygon / nested GeometryCollection sums, winding_order (also with repeated vertices, rotated start), "
+          "orient in both directions, and rounding-level agreement under exact affine maps (offset 1e8, 2^k)."),
+    note="Trusted: TLC integer arithmetic; areas are integers/2 below 2^53 so f64 equality is exact. Small scope: <= 6 vertices on 4x4, <= 4 on 5x5 lattice.",
+    technique="TLA+ exact shoelace over TLC-enumerated polygons; spec->impl replay", design_ref="DESIGN.md 5 C05"),
+ "C06": dict(
+    text=("Gen_Centroid.tla defines the centroid as an exact rational by dimension dominance (WC/Merge - also the accumulator state "
+          "machine of CentroidOperation) over TLC-enumerated geometry trees of all 10 types incl. empty / degenerate members; TLC "
+          "checks fold-order and nesting independence on every state; each tree and every lattice polygon (Gen_Poly) is replayed "
+          "(Geometry enum, concrete impls, exact similarity maps)."),
+    note="Trusted: TLC; 1-D members restricted to integer-length segments; tolerance 8e-9 on a 4-unit extent.",
+    technique="TLA+ exact rational centroid (dimension-dominance accumulator) enumerated by TLC; spec->impl replay", design_ref="DESIGN.md 5 C06"),
 }
